@@ -24,12 +24,13 @@ D == T.decl
 IsMarker(e, m) == e[1] = "call" /\ e[2] = m
 MarkerIdx(log, m) == LET I == {i \in DOMAIN log : IsMarker(log[i], m)} IN IF I = {} THEN 0 ELSE CHOOSE i \in I : \A j \in I : i <= j
 ByTag(r) == D.tag # "" /\ \E i \in DOMAIN r.sels : r.sels[i].focus \in {"$v:@" \o D.tag, "*:@" \o D.tag}
-Instr(r) == r.mode \in {"tooled", "inplace", "tweak", "tweak2", "tweak_cond", "ovprobe", "total"}
+Instr(r) == r.mode \in {"tooled", "inplace", "tweak", "tweak2", "tweak_cond", "ovprobe", "total", "ovseq1", "ovseq2"}
             \/ (r.mode \in {"catprobe", "catplain"} /\ ByTag(r))
             \/ (r.mode = "probe" /\ \E i \in DOMAIN r.sels : r.sels[i].focus \in {D.var, "$x"}
                                                             \/ \E j \in DOMAIN r.sels[i].ctx : r.sels[i].ctx[j] = D.var)
 SupplyIdx(r) == {i \in DOMAIN r.sels : r.sels[i].focus = D.var \/ (D.tag # "" /\ r.sels[i].focus = "$v:@" \o D.tag)}
-Supplied(r) == r.mode \in {"tweak", "tweak2", "ovprobe", "catprobe"} /\ SupplyIdx(r) # {}
+\* ovseq1 / ovseq2: two calls under one overriding probe whose pipeline lets the override through for the first call only
+Supplied(r) == r.mode \in {"tweak", "tweak2", "ovprobe", "catprobe", "ovseq1"} /\ SupplyIdx(r) # {}
 SupplyVal(r) == r.supply + (CHOOSE i \in SupplyIdx(r) : TRUE) - 1
 F(run, clause, a, b) == [run |-> run, clause |-> clause, a |-> a, b |-> b]
 NextMarker == IF D.marker = "901" THEN "902" ELSE "903"
